@@ -150,7 +150,10 @@ deriving DecidableEq, Repr
 def stdType (env : ι → UnitInfo V) (b1 b2 : BU ι) : Option Conv :=
   if (b1.dims env).beq (b2.dims env) then some .linear
   else if (b1.dims env).neg.beq (b2.dims env) then some .inversed
-  else if b1.isEmpty ∧ b2.unitNames env = ["rad"] then some .linear
+  else if b1.isEmpty ∧ b2.unitNames env = ["rad"] ∧
+      (((b2.dims env)[7]?).map (fun d => d.num == d.den)).getD false = true then
+    -- a bare number is an angle in radians (first power only: `dimensions.rad.num == .den`)
+    some .linear
   else none
 
 /-- `Quantity._convert` → `UnitType.convert` -/
